@@ -162,3 +162,13 @@ PROPS['C18']={
    {'name':'record_artifacts','module':'harness.C18','cls':'Record','quick':{'flen':2},'thorough':{'flen':3},'validate':{'quick':12,'thorough':48}},
    {'name':'in_toto_run_sequencing','module':'harness.C18','cls':'RunSequencing','quick':{},'thorough':{}},
  ]}
+
+PROPS['C12']={
+ 'bounds_statement':'(a,b) PublicKey::new / from_ed25519 / from_spki / from_pem_spki from MIR (incl. shim_public_key, the Serialize impls, canonical JSON, write_spki through the DER writer model, PEM) for ed25519 (3 free key bytes), ECDSA P-256 (2 free bytes) and the RSA fixture, three hash-algorithm lists: every path hashes exactly the reference canonical description; (c) from_spki / as_spki on the RFC 8410, RFC 3279 and RFC 5480 SubjectPublicKeyInfo templates with free key bytes, plus an ed25519 template with 6 free DER header bytes (panic-freedom); (d) Layout::try_into on every way of filing two keys under own / other / unrelated identifiers.',
+ 'assumptions':UNIT_ASSUME+SIGNED_ASSUME[:1]+['untrusted / derp (DER reader and writer) modelled from derp 0.0.15\'s source; pem encode/parse modelled for concrete bytes (base64 of symbolic bytes is out of reach, hence RSA is decided on the fixture key only); SHA-256 is an injective function of its input (concrete inputs use the real SHA-256)',
+                 'JSON text round trip of keys is C16/C17 (wire_pubkey)'],
+ 'obligations':[
+   {'name':'key_id','module':'harness.C12','cls':'KeyIds','quick':{},'thorough':{},'validate':{'quick':9,'thorough':9}},
+   {'name':'spki','module':'harness.C12','cls':'Spki','quick':{},'thorough':{},'validate':{'quick':4,'thorough':4}},
+   {'name':'key_table','module':'harness.C12','cls':'KeyTable','quick':{},'thorough':{},'validate':{'quick':6,'thorough':6}},
+ ]}
